@@ -1,5 +1,605 @@
-"""C11 - further clauses (stub)."""
+"""C11 - further clauses: design-space files (DesignSpaceFile.tla) and HDF5 cache reopening
+(HDFCacheFile.tla).  The specification enumerates the instances / the state graph and computes what
+the files must contain; this module builds the real objects, performs the real I/O and compares.
+"""
+from __future__ import annotations
+
+import multiprocessing as mp
+import os
+import subprocess
+import sys
+import json
+from pathlib import Path
+
+import numpy as np
+
+from ..core import Check, Graph, MachineryError
+from . import c11_replay as rp
+
+# ============================================================================= design spaces
+
+DIGITS16 = 1e-15  # relative error of a number printed with 16 significant digits (0.5e-15) with margin
 
 
-def run(ck, rng):
-    return
+def real(n, vtype):
+    """the specification's number id -> the real number (floats: not representable in 16 digits)."""
+    return float(n) if vtype == "integer" else n / 7.0
+
+
+def bound(b, vtype):
+    if b["inf"]:
+        return -np.inf if b["n"] < 0 else np.inf
+    return real(b["n"], vtype)
+
+
+def build_space(space):
+    from gemseo.algos.design_space import DesignSpace
+
+    ds = DesignSpace()
+    for v in space:
+        t = v["type"]
+        value = None
+        if v["hasVal"]:
+            value = np.array([real(n, t) for n in v["val"]])
+            if t == "integer":
+                value = value.astype(int)
+        ds.add_variable(v["name"], size=v["size"], type_=t,
+                        lower_bound=np.array([bound(b, t) for b in v["lb"]]),
+                        upper_bound=np.array([bound(b, t) for b in v["ub"]]), value=value)
+    return ds
+
+
+def spec_projection(space):
+    """the instance in the vocabulary of c11_replay.project_ds"""
+    return [(v["name"], v["size"], v["type"], [bound(b, v["type"]) for b in v["lb"]],
+             [bound(b, v["type"]) for b in v["ub"]],
+             [real(n, v["type"]) for n in v["val"]] if v["hasVal"] else None) for v in space]
+
+
+def close(a, b, tol):
+    if a is None or b is None:
+        return a is None and b is None
+    if len(a) != len(b):
+        return False
+    for x, y in zip(a, b):
+        if np.isinf(x) or np.isinf(y):
+            if x != y:
+                return False
+        elif abs(x - y) > tol * abs(y):
+            return False
+    return True
+
+
+def diff_space(got, want, tol):
+    if [g[0] for g in got] != [w[0] for w in want]:
+        return "names", {"impl": [g[0] for g in got], "spec": [w[0] for w in want]}
+    for g, w in zip(got, want):
+        for field, i in (("size", 1), ("type", 2)):
+            if g[i] != w[i]:
+                return field, {"variable": w[0], "impl": g[i], "spec": w[i]}
+        for field, i in (("lower_bound", 3), ("upper_bound", 4), ("value", 5)):
+            if not close(g[i], w[i], tol):
+                return field, {"variable": w[0], "impl": g[i], "spec": w[i]}
+    return None
+
+
+def read_csv_rows(path):
+    lines = [ln.split() for ln in Path(path).read_text().splitlines() if ln.strip()]
+    return tuple(lines[0]), [tuple(r) for r in lines[1:]]
+
+
+def diff_csv_rows(rows, spec_rows, fields):
+    """real text rows against the rows the specification computed (structure exact, numbers to 16 digits)."""
+    col = {f: i for i, f in enumerate(fields)}
+    rows = [tuple(r[col[f]] for f in ("name", "lower_bound", "value", "upper_bound", "type")) if len(r) == 5 else r
+            for r in rows]
+    if len(rows) != len(spec_rows):
+        return "row_count", {"impl": len(rows), "spec": len(spec_rows)}
+    for k, (r, s) in enumerate(zip(rows, spec_rows)):
+        if len(r) != 5:
+            return "fields", {"row": k, "impl": r}
+        name, lb, value, ub, vtype = r
+        if name != s["name"] or vtype != s["type"]:
+            return "name_or_type", {"row": k, "impl": r, "spec": (s["name"], s["type"])}
+        if (value == "None") != (not s["some"]):
+            return "none_marker", {"row": k, "impl": value, "spec_has_value": s["some"]}
+        want = [bound(s["lb"], vtype), bound(s["ub"], vtype)] + ([real(s["value"], vtype)] if s["some"] else [])
+        got_tok = [lb, ub] + ([value] if s["some"] else [])
+        try:
+            got = [float(t) for t in got_tok]
+        except ValueError:
+            return "number", {"row": k, "impl": r}
+        if not close(got, want, DIGITS16):
+            return "number", {"row": k, "impl": got, "spec": want}
+    return None
+
+
+def read_hdf_space(path, node):
+    import h5py
+
+    with h5py.File(path, "r") as f:
+        g = f[node] if node else f
+        g = g["design_space"]
+        names = [n.decode() for n in g["names"][()]]
+        groups = {}
+        for name in g:
+            if name == "names":
+                continue
+            v = g[name]
+            groups[name] = {"size": int(v["size"][()]), "l_b": [float(x) for x in v["l_b"][()]],
+                            "u_b": [float(x) for x in v["u_b"][()]],
+                            "var_type": [t.decode() for t in v["var_type"][()]],
+                            "value": [float(x) for x in v["value"][()]] if "value" in v else None}
+        return names, groups
+
+
+def diff_hdf_layout(names, groups, spec_hdf):
+    if tuple(names) != tuple(spec_hdf["names"]):
+        return "names", {"impl": names, "spec": list(spec_hdf["names"])}
+    want_groups = {g["name"]: g for g in spec_hdf["groups"]}
+    if set(groups) != set(want_groups):
+        return "groups", {"impl": sorted(groups), "spec": sorted(want_groups)}
+    for name, w in want_groups.items():
+        g = groups[name]
+        t = w["var_type"][0]
+        want = {"size": w["size"], "l_b": [bound(b, t) for b in w["l_b"]], "u_b": [bound(b, t) for b in w["u_b"]],
+                "var_type": list(w["var_type"]),
+                "value": [real(n, t) for n in w["value"]] if w["hasValue"] else None}
+        if g != want:
+            return "group", {"variable": name, "impl": g, "spec": want}
+    return None
+
+
+def run_space_case(job):
+    """one instance: CSV and HDF5 round trips; returns a list of (clause, what, detail)."""
+    import logging
+    import warnings
+
+    logging.disable(logging.CRITICAL)
+    warnings.filterwarnings("ignore")
+    from gemseo.algos.design_space import DesignSpace
+
+    idx, space, header, rows, hdf, workdir = job
+    out = []
+    want = spec_projection(space)
+    node = "" if idx % 2 == 0 else "spaces/s1"
+    csv = Path(workdir) / f"ds{idx}.csv"
+    h5 = Path(workdir) / f"ds{idx}.h5"
+    try:
+        ds = build_space(space)
+        d = diff_space(rp.project_ds(ds), want, 0.0)
+        if d:  # the object built by the harness is not the instance: not gemseo's I/O
+            return [("Build", d[0], d[1])]
+        # ---- text file
+        try:
+            ds.to_csv(csv)
+            got_header, got_rows = read_csv_rows(csv)
+            if got_header != tuple(header):
+                out.append(("CsvStructure", "header", {"impl": got_header, "spec": header}))
+            else:
+                d = diff_csv_rows(got_rows, rows, header)
+                if d:
+                    out.append(("CsvStructure", d[0], d[1]))
+            back = DesignSpace.from_csv(csv) if idx % 3 else DesignSpace.from_file(csv)
+            d = diff_space(rp.project_ds(back), want, DIGITS16)
+            if d:
+                out.append(("CsvRoundTrip", d[0], d[1]))
+        except Exception as ex:  # noqa: BLE001
+            out.append(("CsvRoundTrip", "exception:" + type(ex).__name__, {"exception": repr(ex)}))
+        # ---- HDF5 file (root or nested node)
+        try:
+            if node or idx % 4 == 0:
+                ds.to_hdf(h5, hdf_node_path=node)
+            else:
+                ds.to_file(h5)
+            names, groups = read_hdf_space(h5, node)
+            d = diff_hdf_layout(names, groups, hdf)
+            if d:
+                out.append(("HdfStructure", d[0], d[1]))
+            back = DesignSpace.from_hdf(h5, hdf_node_path=node) if node else DesignSpace.from_file(h5)
+            d = diff_space(rp.project_ds(back), want, 0.0)
+            if d:
+                out.append(("HdfRoundTrip", d[0], d[1]))
+        except Exception as ex:  # noqa: BLE001
+            out.append(("HdfRoundTrip", "exception:" + type(ex).__name__, {"exception": repr(ex)}))
+    finally:
+        for p in (csv, h5):
+            if p.exists():
+                os.remove(p)
+    return [(c, w, dict(d, node=node or "(root)")) for c, w, d in out]
+
+
+def design_spaces(ck: Check, rng, nproc):
+    if ck.thorough:
+        grids = [(2, '{"finite", "low_inf", "up_inf", "free", "mixed"}', None),
+                 (3, '{"finite", "free", "mixed"}', 6000)]
+    else:
+        grids = [(2, '{"finite", "low_inf", "up_inf", "free", "mixed"}', 300)]
+    n_cases = 0
+    for nvars, patterns, budget in grids:
+        cfg = (f"CONSTANTS NVars = {nvars}\n Sizes = {{1, 2}}\n Types = {{\"float\", \"integer\"}}\n"
+               f" Patterns = {patterns}\nSPECIFICATION Spec\nCHECK_DEADLOCK FALSE\n"
+               "INVARIANT RoundTripCsv\nINVARIANT RoundTripHdf\nINVARIANT RowCount\nINVARIANT Emit\n")
+        r = ck.tlc("DesignSpaceFile", cfg, workers=1, timeout=1500, coverage=False)
+        cases = {}
+        for v in r.printed():
+            if isinstance(v, tuple) and v and v[0] == "CASE":
+                _, space, header, rows, hdf = v
+                cases.setdefault(repr(space), (space, header, rows, hdf))
+        if not cases:
+            raise MachineryError("DesignSpaceFile printed no instance")
+        items = [cases[k] for k in sorted(cases)]
+        if budget and len(items) > budget:
+            small = [c for c in items if len(c[0]) == 1]
+            items = small + rng.sample([c for c in items if len(c[0]) > 1], budget - len(small))
+        jobs = [(n_cases + i,) + tuple(item) + (str(ck.work),) for i, item in enumerate(items)]
+        with mp.get_context("fork").Pool(nproc) as pool:
+            results = pool.map(run_space_case, jobs, chunksize=max(1, len(jobs) // (nproc * 4)))
+        for (idx, space, *_), res in zip(jobs, results):
+            for clause, what, detail in res:
+                if clause == "Build":
+                    raise MachineryError(f"harness could not build the instance {space}: {detail}")
+                shape = [(v["size"], v["type"], v["hasVal"]) for v in space]
+                ck.violation(clause, {"what": what, "n_vars": len(space), "node": "nested" if idx % 2 else "root"},
+                             dict(detail, space=spec_projection(space), shape=shape))
+            if not res:
+                ck.traces += 1
+        if jobs:
+            ck.sample({"design_space": spec_projection(jobs[len(jobs) // 2][1]), "formats": ["csv", "hdf5"]})
+        n_cases += len(jobs)
+        ck.extra.setdefault("design_space_cases", []).append(
+            {"n_vars": nvars, "instances_enumerated": r.distinct, "distinct_spaces": len(cases), "replayed": len(jobs)})
+
+
+# ============================================================================= HDF5 cache reopening
+
+def cache_inputs(i):
+    return {"x": np.array([float(i), 0.5]), "n": np.array([i])}
+
+
+def cache_outputs(i):
+    return {"y": np.array([10.0 * i + 0.5, -float(i)]), "tag": np.array([f"run{i}"])}
+
+
+def cache_jacobian(i):
+    from scipy.sparse import csr_array
+
+    dn = np.array([[float(i)], [0.0]])
+    return {"y": {"x": np.array([[float(i), 1.0], [0.0, -float(i)]]), "n": csr_array(dn) if i % 2 == 0 else dn}}
+
+
+def _dense(a):
+    return a.toarray() if hasattr(a, "toarray") else np.asarray(a)
+
+
+def same_arrays(got, want):
+    if set(got) != set(want):
+        return False
+    for k, w in want.items():
+        g = got[k]
+        if isinstance(w, dict):
+            if not isinstance(g, dict) or not same_arrays(g, w):
+                return False
+        else:
+            g, w = _dense(g), _dense(w)
+            if g.shape != w.shape or not np.array_equal(g, w):
+                return False
+    return True
+
+
+def served(cache, n_inputs):
+    """what the open cache object serves: [(has outputs, has jacobian, values are the ones cached)]"""
+    out = {}
+    for i in range(1, n_inputs + 1):
+        e = cache[cache_inputs(i)]
+        has_out, has_jac = bool(e.outputs), bool(e.jacobian)
+        ok = (not has_out or same_arrays(dict(e.outputs), cache_outputs(i))) and \
+             (not has_jac or same_arrays({k: dict(v) for k, v in e.jacobian.items()}, cache_jacobian(i)))
+        out[i] = (has_out, has_jac, ok)
+    return out
+
+
+def read_cache_layout(path, node):
+    import h5py
+
+    if not Path(path).exists():
+        return []
+    with h5py.File(path, "r") as f:
+        if node not in f:
+            return []
+        g = f[node]
+        out = []
+        for j in sorted(int(k) for k in g):
+            e = g[str(j)]
+            out.append((j, int(e["inputs"]["x"][0]), "outputs" in e, "jacobian" in e, "hash" in e))
+        return out
+
+
+_REOPEN_CHILD = r"""
+import sys, json, logging, warnings
+logging.disable(logging.CRITICAL); warnings.filterwarnings("ignore")
+from gemseo.caches.hdf5_cache import HDF5Cache
+from harness.checks.c11_aux import served
+path, node, n = sys.argv[1], sys.argv[2], int(sys.argv[3])
+cache = HDF5Cache(hdf_file_path=path, hdf_node_path=node)
+print(json.dumps({"len": len(cache), "served": {str(k): list(v) for k, v in served(cache, n).items()}}))
+"""
+
+
+def run_cache_walk(job):
+    import logging
+    import warnings
+
+    logging.disable(logging.CRITICAL)
+    warnings.filterwarnings("ignore")
+    from gemseo.caches.hdf5_cache import HDF5Cache
+
+    idx, edge_ids, workdir, n_inputs, child = job
+    g = rp._G
+    node = "node" if idx % 2 == 0 else "caches/disc_1"
+    path = Path(workdir) / f"cache{idx}.h5"
+    out = []
+    ops = []
+    steps = 0
+    try:
+        cache = HDF5Cache(hdf_file_path=path, hdf_node_path=node)
+        for k in edge_ids:
+            _, dst, act, args = g.edges[k]
+            state = g.states[dst]
+            try:
+                if act == "Cache":
+                    i, group = args
+                    ops.append(("CacheOutputs" if group == "out" else "CacheJacobian"))
+                    if group == "out":
+                        cache.cache_outputs(cache_inputs(i), cache_outputs(i))
+                    else:
+                        cache.cache_jacobian(cache_inputs(i), cache_jacobian(i))
+                elif act == "Reopen":
+                    ops.append("Reopen")
+                    cache = HDF5Cache(hdf_file_path=path, hdf_node_path=node)
+                else:
+                    raise RuntimeError(act)
+                got = served(cache, n_inputs)
+                n = len(cache)
+                layout = read_cache_layout(path, node)
+            except Exception as ex:  # noqa: BLE001
+                out.append(("CacheReopen", "exception:" + type(ex).__name__, list(ops), {"exception": repr(ex)}))
+                break
+            mem = rp.as_seq(state["mem"])
+            want = {i + 1: (m["out"], m["jac"], True) for i, m in enumerate(mem)}
+            if got != want:
+                out.append(("CacheReopen", "served", list(ops), {"impl": got, "spec": want}))
+                break
+            if n != state["maxIdx"]:
+                out.append(("CacheReopen", "length", list(ops), {"impl": n, "spec": state["maxIdx"]}))
+                break
+            want_layout = [(j + 1, e["inp"], e["out"], e["jac"], True) for j, e in enumerate(rp.as_seq(state["entries"]))]
+            if layout != want_layout:
+                out.append(("CacheLayout", "entries", list(ops), {"impl": layout, "spec": want_layout}))
+                break
+            steps += 1
+        if child and not out and steps:
+            # a reopening in a new process (no in-process singleton, no shared index)
+            p = subprocess.run([sys.executable, "-c", _REOPEN_CHILD, str(path), node, str(n_inputs)],
+                               capture_output=True, text=True, cwd=str(Path(__file__).resolve().parents[2]),
+                               env=dict(os.environ))
+            if p.returncode != 0:
+                out.append(("CacheReopen", "exception:child", ops + ["ReopenInNewProcess"], {"stderr": p.stderr[-800:]}))
+            else:
+                res = json.loads(p.stdout.strip().splitlines()[-1])
+                want = {str(k): list(v) for k, v in want.items()}
+                if res["served"] != want or res["len"] != state["maxIdx"]:
+                    out.append(("CacheReopen", "served", ops + ["ReopenInNewProcess"], {"impl": res, "spec": want}))
+    finally:
+        if path.exists():
+            os.remove(path)
+    return {"idx": idx, "steps": steps, "viol": out}
+
+
+def caches(ck: Check, rng, nproc):
+    n_inputs = 3 if ck.thorough else 2
+    cfg = (f"CONSTANTS NInputs = {n_inputs}\nSPECIFICATION Spec\nCHECK_DEADLOCK FALSE\n"
+           "INVARIANT Served\nINVARIANT NoDuplicate\nINVARIANT LenIsMax\nPROPERTY ReopenIsIdentity\n")
+    ck.tlc("HDFCacheFile", cfg, workers=4, timeout=600, dump=True)
+    g = rp.canonicalise(Graph(ck.work / "HDFCacheFile.dot"))
+    for act, grp in (("Cache", "out"), ("Cache", "jac"), ("Reopen", None)):  # vacuity, from the graph itself
+        if not any(e[2] == act and (grp is None or e[3][1] == grp) for e in g.edges):
+            raise MachineryError(f"vacuity: no {act} {grp or ''} transition in HDFCacheFile")
+    walks, covered, wanted = rp.Tour(g).walks(40)
+    rp.set_graph(g)
+    jobs = [(i, w, str(ck.work), n_inputs, i < 2) for i, w in enumerate(walks)]
+    # serial: an HDF5Cache owns a multiprocessing manager, which a pool worker may not start
+    results = [run_cache_walk(j) for j in jobs]
+    for x in results:
+        for clause, what, ops, detail in x["viol"]:
+            ck.violation(clause, {"what": what, "ops": ops[-10:]}, dict(detail, ops=ops))
+        if not x["viol"]:
+            ck.traces += 1
+    ck.sample({"cache_walk": [g.edges[k][2] + str(list(g.edges[k][3])) for k in walks[0][:12]]})
+    ck.extra["cache_tour"] = {"states": len(g.states), "edges": len(g.edges), "walks": len(walks),
+                              "edges_covered": covered, "steps_replayed": sum(x["steps"] for x in results)}
+
+
+# ============================================================================= recorded histories (code -> spec)
+
+TRACE_KINDS = {"@f": "vector", "@g": "matrix", "Xtra": "scalar", "_h": "size1", "c": "scalar", "f": "scalar",
+               "g": "vector"}
+TRACE_NKEYS = 5
+
+
+def _rec_db(projected):
+    """projected database -> JSON for HDFStoreTrace (a value that is not one of the built ones gets val -1)."""
+    out = []
+    for key, outs in projected:
+        out.append({"key": key if isinstance(key, int) else -1,
+                    "outs": [{"name": n, "kind": str(k), "val": v if isinstance(v, int) else -1}
+                             for n, (k, v) in sorted(outs.items())]})
+    return out
+
+
+def _rec_layout(layout):
+    out = []
+    for i in sorted(k for k in layout if isinstance(k, int)):
+        x, k, v, arr = layout[i]
+        out.append({"x": x if isinstance(x, int) else -1, "k": list(k or ()),
+                    "v": [t if isinstance(t, int) else -1 for t in v],
+                    "arr": [{"idx": a[0], "kind": str(a[1]), "val": a[2] if isinstance(a[2], int) else -1}
+                            for a in sorted(arr, key=lambda a: a[0])]})
+    if "stray" in layout:
+        out.append({"x": -1, "k": list(layout["stray"]), "v": [], "arr": []})
+    return out
+
+
+def record_history(job):
+    """One random history on a real Database; returns the trace (events) for HDFStoreTrace."""
+    import logging
+    import random
+    import warnings
+
+    logging.disable(logging.CRITICAL)
+    warnings.filterwarnings("ignore")
+    from gemseo.algos.database import Database
+
+    idx, seed, workdir = job
+    rnd = random.Random(seed)
+    names = sorted(TRACE_KINDS)
+    rank = {n: i + 1 for i, n in enumerate(names)}
+    node = "" if idx % 2 == 0 else "hist/run_1"
+    path = Path(workdir) / f"t{idx}.h5"
+    full = Path(workdir) / f"t{idx}-full.h5"
+    database = Database()
+    events = []
+    try:
+        def outs_for(key, chosen):
+            vals = [{"name": n, "kind": TRACE_KINDS[n], "val": 10 * key + rank[n]} for n in chosen]
+            real_outs = {o["name"]: rp.build(o["name"], o["kind"], o["val"]) for o in reversed(vals)}
+            return vals, real_outs
+
+        def export(append, target, op):
+            database.to_hdf(target, append=append, hdf_node_path=node)
+            back = Database.from_hdf(target, hdf_node_path=node)
+            ev = {"op": op, "append": bool(append), "loaded": _rec_db(rp.project_db(back)),
+                  "memory": _rec_db(rp.project_db(database))}
+            if op == "Export":
+                ev["layout"] = _rec_layout(rp.read_layout(target, node))
+            events.append(ev)
+
+        # how exports are triggered: explicitly, or (as the scenario backups do) from a listener of the
+        # database, at every store or at every new iteration; the listener runs inside Database.store
+        mode = ("explicit", "explicit", "store_listener", "new_iter_listener")[idx % 4]
+        state = {"exists": False}
+
+        def backup(_x):
+            export(True, path, "Export")
+            state["exists"] = True
+
+        def attach(db):
+            if mode == "store_listener":
+                db.add_store_listener(backup)
+            elif mode == "new_iter_listener":
+                db.add_new_iter_listener(backup)
+
+        attach(database)
+        for _ in range(rnd.randint(4, 14)):
+            have = {rp.key_id(x.wrapped_array): set(o) for x, o in database.items()}
+            choice = rnd.choice(["store", "store", "more", "more", "export", "export", "reload", "update"])
+            if choice == "store" and len(have) < TRACE_NKEYS:
+                key = len(have) + 1
+                vals, real_outs = outs_for(key, rnd.sample(names, rnd.randint(0, 4)))
+                events.append({"op": "Store", "key": key, "outs": vals})
+                database.store(rp.POINTS[key].copy(), real_outs)
+            elif choice == "more" and have:
+                key = rnd.choice(sorted(have))
+                free = [n for n in names if n not in have[key]]
+                vals, real_outs = outs_for(key, rnd.sample(free, rnd.randint(0, min(3, len(free)))))
+                events.append({"op": "StoreMore", "key": key, "outs": vals})
+                database.store(rp.POINTS[key].copy(), real_outs)
+            elif choice == "export":
+                export(rnd.random() < 0.7, path, "Export")
+                state["exists"] = True
+            elif choice == "reload" and state["exists"]:
+                database = Database.from_hdf(path, hdf_node_path=node)
+                attach(database)
+                events.append({"op": "Reload", "memory": _rec_db(rp.project_db(database))})
+            elif choice == "update" and state["exists"] and mode == "explicit":
+                # (with an exporting listener attached, update_from_hdf would write the file it is reading)
+                database.update_from_hdf(path, hdf_node_path=node)
+                events.append({"op": "Update", "memory": _rec_db(rp.project_db(database))})
+        export(True, path, "Export")
+        export(False, full, "FullCopy")
+        return {"id": idx, "events": events, "node": node or "(root)", "mode": mode}
+    except Exception as ex:  # noqa: BLE001 - gemseo raised on a history the specification allows
+        import traceback
+
+        return {"id": idx, "events": events, "node": node or "(root)", "exception": repr(ex),
+                "traceback": traceback.format_exc(limit=5)}
+    finally:
+        for p in (path, full):
+            if p.exists():
+                os.remove(p)
+
+
+def histories(ck: Check, rng, nproc):
+    n = 1500 if ck.thorough else 120
+    jobs = [(i, rng.randrange(2**31), str(ck.work)) for i in range(n)]
+    with mp.get_context("fork").Pool(nproc) as pool:
+        traces = pool.map(record_history, jobs, chunksize=max(1, n // (nproc * 4)))
+    ok_traces = []
+    for t in traces:
+        if "exception" in t:
+            ck.violation("TraceConformance", {"what": "exception", "ops": [e["op"] for e in t["events"]][-8:]},
+                         {"exception": t["exception"], "traceback": t["traceback"], "events": t["events"]})
+        else:
+            ok_traces.append(t)
+    by = lambda kind: "{" + ", ".join('"%s"' % k for k, v in sorted(TRACE_KINDS.items()) if v == kind) + "}"  # noqa: E731
+    names_set = "{" + ", ".join('"%s"' % k for k in sorted(TRACE_KINDS)) + "}"
+    cfg = (f"CONSTANTS NKeys = {TRACE_NKEYS}\n Names = {names_set}\n"
+           f" Scalars = {by('scalar')}\n Size1s = {by('size1')}\n Vectors = {by('vector')}\n Matrices = {by('matrix')}\n"
+           " WithProblem = FALSE\nINIT TInit\nNEXT TNext\nCONSTRAINT Reach\nPOSTCONDITION Accepted\nCHECK_DEADLOCK FALSE\n"
+           "INVARIANT IndexConsistency\nINVARIANT PendingCovers\nINVARIANT NoHole\n")
+    f = ck.work / "hdf-traces.json"
+    f.write_text(json.dumps([{"id": t["id"], "events": t["events"]} for t in ok_traces]))
+    r = ck.tlc("HDFStoreTrace", cfg, workers=1, timeout=1500, count=False, env={"TRACE_FILE": str(f)}, coverage=False)
+    verdict = {}
+    for v in r.printed():
+        if isinstance(v, tuple) and v and v[0] == "TRACE":
+            verdict[v[1]] = (v[2], v[3])
+    accepted = 0
+    for t in ok_traces:
+        if t["id"] not in verdict:
+            raise MachineryError(f"no verdict for trace {t['id']}")
+        reached, total = verdict[t["id"]]
+        if reached != total:
+            nxt = t["events"][reached]
+            ck.violation("TraceConformance", {"what": nxt["op"] + ("(append)" if nxt.get("append") else ""),
+                                              "ops": [e["op"] for e in t["events"][:reached + 1]][-8:]},
+                         {"matched_prefix": reached, "rejected_event": nxt, "node": t["node"],
+                          "events": t["events"][:reached + 1]})
+        else:
+            accepted += 1
+            ck.traces += 1
+    ck.states += r.distinct
+    ck.transitions += r.generated
+    if ok_traces:
+        ck.sample({"recorded_history": [e["op"] + ("(append)" if e.get("append") else "") for e in ok_traces[0]["events"]]})
+    ck.extra["recorded_histories"] = {"recorded": n, "accepted": accepted, "events": sum(len(t["events"]) for t in ok_traces),
+                                      "keys": TRACE_NKEYS, "names": len(TRACE_KINDS)}
+
+
+def run(ck: Check, rng):
+    import time
+
+    nproc = 16 if ck.thorough else 8
+    rp.preload()
+    t = [time.time()]
+    for part in (histories, design_spaces, caches):
+        part(ck, rng, nproc)
+        t.append(time.time())
+    ck.extra["aux_wall_s"] = {"histories": round(t[1] - t[0], 1), "design_spaces": round(t[2] - t[1], 1),
+                              "caches": round(t[3] - t[2], 1)}
+    ck.assumptions += [
+        "design-space numbers: id n stands for n/7 (float variables) or n (integer variables); HDF5 compared exactly, "
+        "text files to a relative 1e-15 (16 significant digits)",
+        "cache reopening: one cache object open at a time on a node (two concurrent objects: D11, outside C11)",
+        "problem files: constraints and observables are compared by name, not by listing order",
+    ]
